@@ -6,19 +6,34 @@
   * `project.Geometry` (all inputs, arbitrary — even stateful — point functions): the result has the
     kind, nesting and member counts of the input, `proj` is called on every vertex exactly once in
     storage order, and a bound becomes the box of its two projected corners.
-  * The tile round trip is proved for ABSTRACT planar/geo maps `P`, `G` over an ordered field:
+  * The tile round trip is proved for ABSTRACT planar/geo maps `P`, `G` over an ordered field, with a
+    POINTWISE accuracy hypothesis (`CloseAt P G ε c`: only at the pixel centre `c` that the code
+    feeds to `ToGeo` — the real `toPlanar ∘ toGeo` is not uniformly accurate because of its clamp):
     with the half-pixel centre of the power-of-two path any error below ½ pixel is absorbed;
     the non-power-of-two path HAD no margin before fix 7b86dd1 (`nonPow2ProjUnfixed`, spec side) — it
-    was the identity only for an exact inverse pair and came back one pixel low for EVERY negative
-    error (the defect the property describes); with the pixel centre the code has now
+    was the identity only for an exact inverse pair and came back one pixel low on each axis whose
+    coordinate comes back low by ANY positive amount (the defect the property describes); with the pixel centre the code has now
     (`nonPow2Proj`) any error below ½/extent is absorbed.
+  * `mvt.newProjection` itself: `isPowerOfTwo e ↔ e = 0 ∨ ∃ k, e = 2^k`, `TrailingZeros32 (2^k) = k`,
+    `TrailingZeros32 0 = 32`, `maxtiles = 2^level` below level 64 and `0` from 64 on, the tile origin
+    is an integer of the field; composed: `newProjection_roundtrip` (both paths, any extent, accuracy
+    at the pixel centre), and chained with `planar_geo_roundtrip_partial`:
+    `newProjection_roundtrip_exact`.
+  * `Layer.ProjectToTile / ProjectToWGS84` and `Layers.ProjectTo*` (models `layerProjectTo*`,
+    `layersProjectTo*` in Orb/Project.lean) map `project.Geometry` over the features with ONE
+    projection per layer (`layer_projectToTile_eq`), and round-trip whole layers (`layer_roundtrip`,
+    `layers_roundtrip`) under the same pointwise hypothesis at every vertex (features without bounds:
+    a bound is re-boxed by each stage).
   * The mercator closed forms are mutually inverse given explicit inverse-pair hypotheses on
-    `atan/tan/exp/log` (and `sin` for ToPlanar/ToGeo) and an inactive clamp.
+    `atan/tan/exp/log` (and `sin` for ToPlanar/ToGeo) and an inactive clamp.  These hypotheses are
+    jointly satisfiable: OrbProofs/C15Real.lean proves every one of them for Mathlib's real functions
+    and derives the unconditional round trips over ℝ.
 
   NOT proved: the numeric bounds 1e-9° / 1 mm and the exact integer recovery under float64 `exp/atan/
   log/sin` are float-accuracy statements (`…_full` below); the correspondence check measures them.
 -/
 import OrbProofs.C15Lemmas
+import OrbProofs.C15ProjLemmas
 
 namespace Orb.Project
 open Orb Orb.Core
@@ -55,7 +70,9 @@ theorem project_bound (f : Pt α → Pt α) (lo hi : Pt α) :
       .bound ⟨min (f lo).x (f hi).x, min (f lo).y (f hi).y⟩ ⟨max (f lo).x (f hi).x, max (f lo).y (f hi).y⟩ :=
   project_bound' f lo hi
 
-/-- nil interfaces and typed nil slices are returned as they are, without calling `proj`. -/
+/-- nil interfaces and typed nil slices are returned as they are, without calling `proj`.
+    (True by definition of the model `geometryVM`: the content of this clause is the correspondence
+    check, which compares value, kind of nil and call count with the Go code.) -/
 theorem project_nil (proj : Proj σ α) (s : σ) (k : Kind) :
     geometryVM proj .nilIface s = (.nilIface, s) ∧ geometryVM proj (.nilSlice k) s = (.nilSlice k, s) :=
   project_nil' proj s k
@@ -65,14 +82,15 @@ end project
 section tile
 variable {α : Type} [Field α] [LinearOrder α] [IsStrictOrderedRing α]
 
-/-- Power-of-two extents: with planar/geo maps that invert each other up to an error `ε < ½` pixel,
-    integer tile coordinates survive tile → WGS84 → tile exactly (the `+0.5` gives a margin of ½). -/
+/-- Power-of-two extents: if the planar/geo maps invert each other to within `ε < ½` pixel AT THE
+    PIXEL CENTRE `(i + mx + ½, j + my + ½)` (nowhere else), the integer tile coordinates `(i, j)`
+    survive tile → WGS84 → tile exactly (the `+0.5` gives a margin of ½). -/
 theorem tile_roundtrip_margin (floor : α → α)
     (hfloor : ∀ (x : α) (n : ℤ), (n : α) ≤ x → x < (n : α) + 1 → floor x = (n : α))
-    (P G : Pt α → Pt α) (ε : α) (hε : ε < 1 / 2)
-    (hPG : ∀ u, |(P (G u)).x - u.x| ≤ ε ∧ |(P (G u)).y - u.y| ≤ ε) (mx my i j : ℤ) :
+    (P G : Pt α → Pt α) (ε : α) (hε : ε < 1 / 2) (mx my i j : ℤ)
+    (hPG : CloseAt P G ε ⟨(i : α) + mx + 1 / 2, (j : α) + my + 1 / 2⟩) :
     (pow2Proj floor P G (mx : α) (my : α)).toTile ((pow2Proj floor P G (mx : α) (my : α)).toWGS84 ⟨(i : α), (j : α)⟩)
-      = ⟨(i : α), (j : α)⟩ := tile_roundtrip_margin' floor hfloor P G ε hε hPG mx my i j
+      = ⟨(i : α), (j : α)⟩ := tile_roundtrip_margin' floor hfloor P G ε hε mx my i j hPG
 
 /-- Other extents, code BEFORE fix 7b86dd1 (`nonPow2ProjUnfixed`): the identity held for an EXACT inverse pair (ε = 0) … -/
 theorem tile_roundtrip_nonpow2_exact (floor : α → α)
@@ -81,14 +99,30 @@ theorem tile_roundtrip_nonpow2_exact (floor : α → α)
     (nonPow2ProjUnfixed floor P G minx miny e).toTile ((nonPow2ProjUnfixed floor P G minx miny e).toWGS84 ⟨(i : α), (j : α)⟩)
       = ⟨(i : α), (j : α)⟩ := tile_roundtrip_nonpow2_exact' floor hfloor P G hPG minx miny e he i j
 
-/-- … and failed for EVERY negative error: if the planar/geo pair comes back low by any `δ > 0`
-    (at most a pixel, `δ·e ≤ 1`) every pixel comes back one lower. There is no margin. -/
+/-- … and failed for every negative error, pointwise and per axis: if AT THE POINT `(i/e + minx,
+    j/e + miny)` the planar/geo pair comes back low by `δx > 0` in x and `δy > 0` in y (each at most a
+    pixel, `δ·e ≤ 1`; the two need not be equal and nothing is assumed at other points), pixel
+    `(i, j)` comes back as `(i − 1, j − 1)`.  There is no margin. -/
 theorem tile_roundtrip_nonpow2_no_margin (floor : α → α)
     (hfloor : ∀ (x : α) (n : ℤ), (n : α) ≤ x → x < (n : α) + 1 → floor x = (n : α))
-    (P G : Pt α → Pt α) (δ : α) (hδ : 0 < δ) (minx miny e : α) (he : 0 < e) (hδe : δ * e ≤ 1)
-    (hPG : ∀ u, P (G u) = ⟨u.x - δ, u.y - δ⟩) (i j : ℤ) :
+    (P G : Pt α → Pt α) (minx miny e : α) (he : 0 < e) (i j : ℤ) (δx δy : α)
+    (hδx : 0 < δx) (hδxe : δx * e ≤ 1) (hδy : 0 < δy) (hδye : δy * e ≤ 1)
+    (hx : (P (G ⟨(i : α) / e + minx, (j : α) / e + miny⟩)).x = (i : α) / e + minx - δx)
+    (hy : (P (G ⟨(i : α) / e + minx, (j : α) / e + miny⟩)).y = (j : α) / e + miny - δy) :
     (nonPow2ProjUnfixed floor P G minx miny e).toTile ((nonPow2ProjUnfixed floor P G minx miny e).toWGS84 ⟨(i : α), (j : α)⟩)
-      = ⟨(i : α) - 1, (j : α) - 1⟩ := tile_roundtrip_nonpow2_no_margin' floor hfloor P G δ hδ minx miny e he hδe hPG i j
+      = ⟨(i : α) - 1, (j : α) - 1⟩ :=
+  tile_roundtrip_nonpow2_no_margin' floor hfloor P G minx miny e he i j δx δy hδx hδxe hδy hδye hx hy
+
+/-- … one axis alone: an error in x only loses the column and keeps the row. -/
+theorem tile_roundtrip_nonpow2_no_margin_x (floor : α → α)
+    (hfloor : ∀ (x : α) (n : ℤ), (n : α) ≤ x → x < (n : α) + 1 → floor x = (n : α))
+    (P G : Pt α → Pt α) (minx miny e : α) (he : 0 < e) (i j : ℤ) (δx : α)
+    (hδx : 0 < δx) (hδxe : δx * e ≤ 1)
+    (hx : (P (G ⟨(i : α) / e + minx, (j : α) / e + miny⟩)).x = (i : α) / e + minx - δx)
+    (hy : (P (G ⟨(i : α) / e + minx, (j : α) / e + miny⟩)).y = (j : α) / e + miny) :
+    (nonPow2ProjUnfixed floor P G minx miny e).toTile ((nonPow2ProjUnfixed floor P G minx miny e).toWGS84 ⟨(i : α), (j : α)⟩)
+      = ⟨(i : α) - 1, (j : α)⟩ :=
+  tile_roundtrip_nonpow2_no_margin_x' floor hfloor P G minx miny e he i j δx hδx hδxe hx hy
 
 /-- A concrete witness over ℚ: with the unfixed code an inverse pair off by 10⁻⁹ brings pixel (5,7) of a
     1000-extent tile back as (4,6), while the power-of-two path with the same pair returns (5,7). -/
@@ -101,13 +135,14 @@ theorem tile_roundtrip_nonpow2_witness :
       = (⟨5, 7⟩ : Pt Rat) := tile_roundtrip_nonpow2_witness'
 
 /-- Other extents, the code as it is now (`+0.5` pixel centre, fix 7b86dd1): there is a margin —
-    any error with `ε·e < ½` is absorbed and integer tile coordinates survive exactly. -/
+    an error `ε` with `ε·e < ½` AT THE PIXEL CENTRE `((i+½)/e + minx, (j+½)/e + miny)` is absorbed and
+    the integer tile coordinates survive exactly. -/
 theorem tile_roundtrip_nonpow2_fixed_margin (floor : α → α)
     (hfloor : ∀ (x : α) (n : ℤ), (n : α) ≤ x → x < (n : α) + 1 → floor x = (n : α))
-    (P G : Pt α → Pt α) (ε : α) (minx miny e : α) (he : 0 < e) (hε : ε * e < 1 / 2)
-    (hPG : ∀ u, |(P (G u)).x - u.x| ≤ ε ∧ |(P (G u)).y - u.y| ≤ ε) (i j : ℤ) :
+    (P G : Pt α → Pt α) (ε : α) (minx miny e : α) (he : 0 < e) (hε : ε * e < 1 / 2) (i j : ℤ)
+    (hPG : CloseAt P G ε ⟨((i : α) + 1 / 2) / e + minx, ((j : α) + 1 / 2) / e + miny⟩) :
     (nonPow2Proj floor P G minx miny e).toTile ((nonPow2Proj floor P G minx miny e).toWGS84 ⟨(i : α), (j : α)⟩)
-      = ⟨(i : α), (j : α)⟩ := tile_roundtrip_nonpow2_fixed_margin' floor hfloor P G ε minx miny e he hε hPG i j
+      = ⟨(i : α), (j : α)⟩ := tile_roundtrip_nonpow2_fixed_margin' floor hfloor P G ε minx miny e he hε i j hPG
 
 /-- `newProjection` is the power-of-two path at zoom `Z + log₂ extent` for power-of-two extents and the
     other path otherwise. -/
@@ -121,6 +156,143 @@ theorem newProjection_nonpow2 (F : MFn α) (X Y Z extent : Nat) (h : isPowerOfTw
     newProjection F X Y Z extent =
       nonPow2Proj F.floor (toPlanar F Z) (toGeo F Z) (F.ofNat X) (F.ofNat Y) (F.ofNat extent) :=
   newProjection_nonpow2' F X Y Z extent h
+
+/-! #### `newProjection`: which path, which level, which origin -/
+
+omit [Field α] [LinearOrder α] [IsStrictOrderedRing α] in
+/-- `isPowerOfTwo(n) = (n & (n-1)) == 0` is true exactly for 0 and the powers of two. -/
+theorem isPowerOfTwo_iff (e : Nat) : isPowerOfTwo e = true ↔ e = 0 ∨ ∃ k, e = 2 ^ k := isPowerOfTwo_iff' e
+
+omit [Field α] [LinearOrder α] [IsStrictOrderedRing α] in
+/-- `bits.TrailingZeros32(2^k) = k` for every uint32 power of two … -/
+theorem trailingZeros32_two_pow (k : Nat) (hk : k < 32) : trailingZeros32 (2 ^ k) = k :=
+  trailingZeros32_two_pow' k hk
+
+omit [Field α] [LinearOrder α] [IsStrictOrderedRing α] in
+/-- … and 32 for extent 0 (which `isPowerOfTwo` accepts): the power-of-two path at zoom + 32. -/
+theorem trailingZeros32_zero : trailingZeros32 0 = 32 := trailingZeros32_zero'
+
+/-- `maxtiles = float64(uint64(1 << level))` is `2^level` below level 64 … -/
+theorem maxTiles_eq (F : MFn α) (hofNat : ∀ n : Nat, F.ofNat n = (n : α)) (z : Nat) (hz : z < 64) :
+    maxTiles F z = 2 ^ z := maxTiles_eq' F hofNat z hz
+
+/-- … and 0 from level 64 on (the shift wraps): every later division is by zero. -/
+theorem maxTiles_wrap (F : MFn α) (hofNat : ∀ n : Nat, F.ofNat n = (n : α)) (z : Nat) (hz : 64 ≤ z) :
+    maxTiles F z = 0 := maxTiles_wrap' F hofNat z hz
+
+/-- Integrality of the origin: with an exact `float64(uint64(·))` the `minx, miny` of the
+    power-of-two path are integers of the field (what `tile_roundtrip_margin`'s `mx my : ℤ` needs). -/
+theorem newProjection_origin_int (F : MFn α) (hofNat : ∀ n : Nat, F.ofNat n = (n : α)) (X n : Nat) :
+    F.ofNat ((X * 2 ^ n) % 2 ^ 64) = ((((X * 2 ^ n) % 2 ^ 64 : ℕ) : ℤ) : α) :=
+  newProjection_origin_int' F hofNat X n
+
+omit [Field α] [LinearOrder α] [IsStrictOrderedRing α] in
+/-- the level: `Z + k` for extent `2^k`, `Z + 32` for extent 0, `Z` otherwise -/
+theorem projLevel_two_pow (Z k : Nat) (hk : k < 32) : projLevel Z (2 ^ k) = Z + k := projLevel_two_pow' Z k hk
+
+omit [Field α] [LinearOrder α] [IsStrictOrderedRing α] in
+theorem projLevel_zero (Z : Nat) : projLevel Z 0 = Z + 32 := projLevel_zero' Z
+
+omit [Field α] [LinearOrder α] [IsStrictOrderedRing α] in
+theorem projLevel_other (Z e : Nat) (h : isPowerOfTwo e = false) : projLevel Z e = Z := projLevel_other' Z e h
+
+/-- the pixel centre handed to `ToGeo`, spelled out: extent `2^k` (valid tile indices never wrap) … -/
+theorem pixelCentre_two_pow (X Y k : Nat) (hk : k < 32) (hX : X < 2 ^ 32) (hY : Y < 2 ^ 32) (i j : ℤ) :
+    (pixelCentre X Y (2 ^ k) i j : Pt α) =
+      ⟨(i : α) + (X : α) * 2 ^ k + 1 / 2, (j : α) + (Y : α) * 2 ^ k + 1 / 2⟩ :=
+  pixelCentre_two_pow' X Y k hk hX hY i j
+
+/-- … and any other extent. -/
+theorem pixelCentre_other (X Y e : Nat) (h : isPowerOfTwo e = false) (i j : ℤ) :
+    (pixelCentre X Y e i j : Pt α) =
+      ⟨((i : α) + 1 / 2) / (e : α) + (X : α), ((j : α) + 1 / 2) / (e : α) + (Y : α)⟩ :=
+  pixelCentre_other' X Y e h i j
+
+/-- THE composed theorem about `mvt.newProjection(tile, extent)` — both paths, every extent
+    (powers of two, 0, all others), every tile: with an exact floor and an exact `float64(uint64(·))`,
+    if `ToPlanar ∘ ToGeo` at the projection's level is accurate to `ε` with `ε · pixelScale < ½`
+    at the centre of pixel `(i, j)`, then `ToTile (ToWGS84 (i, j)) = (i, j)`. -/
+theorem newProjection_roundtrip (F : MFn α)
+    (hfloor : ∀ (x : α) (n : ℤ), (n : α) ≤ x → x < (n : α) + 1 → F.floor x = (n : α))
+    (hofNat : ∀ n : Nat, F.ofNat n = (n : α))
+    (X Y Z extent : Nat) (ε : α) (hε : ε * pixelScale extent < 1 / 2) (i j : ℤ)
+    (hclose : CloseAt (toPlanar F (projLevel Z extent)) (toGeo F (projLevel Z extent)) ε
+      (pixelCentre X Y extent i j)) :
+    (newProjection F X Y Z extent).toTile ((newProjection F X Y Z extent).toWGS84 ⟨(i : α), (j : α)⟩)
+      = ⟨(i : α), (j : α)⟩ := newProjection_roundtrip' F hfloor hofNat X Y Z extent ε hε i j hclose
+
+/-- The chain `planar_geo_roundtrip_partial → CloseAt … 0 → tile round trip → newProjection`: given the
+    Gudermannian identity on the opaque functions and `ToPlanar`'s clamp inactive AT THE PIXEL CENTRE,
+    `newProjection` returns exactly the same integers (level below 64, where `maxtiles ≠ 0`). -/
+theorem newProjection_roundtrip_exact (F : MFn α)
+    (hfloor : ∀ (x : α) (n : ℤ), (n : α) ≤ x → x < (n : α) + 1 → F.floor x = (n : α))
+    (hofNat : ∀ n : Nat, F.ofNat n = (n : α))
+    (X Y Z extent : Nat) (hlev : projLevel Z extent < 64) (i j : ℤ)
+    (hpi : F.pi ≠ 0) (htwo : F.twoPi = 2 * F.pi) (hd : F.d180pi = 180 / F.pi)
+    (hgd : ∀ t, F.log ((1 + F.sin (2 * F.atan (F.exp t) - F.pi / 2)) / (1 - F.sin (2 * F.atan (F.exp t) - F.pi / 2))) = 2 * t)
+    (hclamp :
+      ¬ F.sin (2 * F.atan (F.exp (F.pi - F.twoPi *
+          ((pixelCentre X Y extent i j : Pt α).y / maxTiles F (projLevel Z extent)))) - F.pi / 2) < -F.c9999 ∧
+      ¬ F.c9999 < F.sin (2 * F.atan (F.exp (F.pi - F.twoPi *
+          ((pixelCentre X Y extent i j : Pt α).y / maxTiles F (projLevel Z extent)))) - F.pi / 2)) :
+    (newProjection F X Y Z extent).toTile ((newProjection F X Y Z extent).toWGS84 ⟨(i : α), (j : α)⟩)
+      = ⟨(i : α), (j : α)⟩ :=
+  newProjection_roundtrip_exact' F hfloor hofNat X Y Z extent hlev i j hpi htwo hd hgd hclamp
+
+/-- The same chain for the bare power-of-two path with an abstract integer origin:
+    `tile_roundtrip_margin` applied to `planar_geo_roundtrip_partial` at the pixel centre. -/
+theorem tile_roundtrip_pow2_of_planar_geo (F : MFn α)
+    (hfloor : ∀ (x : α) (n : ℤ), (n : α) ≤ x → x < (n : α) + 1 → F.floor x = (n : α))
+    (z : Nat) (mx my i j : ℤ)
+    (hpi : F.pi ≠ 0) (hm : maxTiles F z ≠ 0) (htwo : F.twoPi = 2 * F.pi) (hd : F.d180pi = 180 / F.pi)
+    (hgd : ∀ t, F.log ((1 + F.sin (2 * F.atan (F.exp t) - F.pi / 2)) / (1 - F.sin (2 * F.atan (F.exp t) - F.pi / 2))) = 2 * t)
+    (hclamp :
+      ¬ F.sin (2 * F.atan (F.exp (F.pi - F.twoPi * (((j : α) + my + 1 / 2) / maxTiles F z))) - F.pi / 2) < -F.c9999 ∧
+      ¬ F.c9999 < F.sin (2 * F.atan (F.exp (F.pi - F.twoPi * (((j : α) + my + 1 / 2) / maxTiles F z))) - F.pi / 2)) :
+    (pow2Proj F.floor (toPlanar F z) (toGeo F z) (mx : α) (my : α)).toTile
+        ((pow2Proj F.floor (toPlanar F z) (toGeo F z) (mx : α) (my : α)).toWGS84 ⟨(i : α), (j : α)⟩)
+      = ⟨(i : α), (j : α)⟩ :=
+  tile_roundtrip_pow2_of_planar_geo' F hfloor z mx my i j hpi hm htwo hd hgd hclamp
+
+/-! #### `Layer.ProjectToTile / ProjectToWGS84`, `Layers.ProjectTo*` -/
+
+/-- `Layer.ProjectToTile` builds ONE projection from (tile, l.Extent) and maps `project.Geometry`
+    with its `ToTile` over the features; nil and typed-nil geometries stay as they are (`gmap`).
+    (By `project_pure` each projected feature is its own shape filled with the mapped vertices.) -/
+theorem layer_projectToTile_eq (F : MFn α) (X Y Z extent : Nat) (feats : List (GVal α)) :
+    layerProjectToTile F X Y Z extent feats = feats.map (gmap (newProjection F X Y Z extent).toTile) :=
+  layerProjectToTile_eq' F X Y Z extent feats
+
+theorem layer_projectToWGS84_eq (F : MFn α) (X Y Z extent : Nat) (feats : List (GVal α)) :
+    layerProjectToWGS84 F X Y Z extent feats = feats.map (gmap (newProjection F X Y Z extent).toWGS84) :=
+  layerProjectToWGS84_eq' F X Y Z extent feats
+
+omit [Field α] [IsStrictOrderedRing α] in
+/-- If `f` undoes `h` on every vertex, `project.Geometry(·, f)` undoes `project.Geometry(·, h)` on
+    geometries without bounds (each stage re-boxes a bound: `project_bound`). -/
+theorem geometry_roundtrip (f h : Pt α → Pt α) (g : Geom α) (hn : NoBounds g)
+    (hfh : ∀ p ∈ verts g, f (h p) = p) : geometry f (geometry h g) = g := geometry_roundtrip' f h g hn hfh
+
+/-- The layer-level statement of the property: `Layer.ProjectToWGS84` then `Layer.ProjectToTile`
+    returns exactly the same layer — same features, kinds, nesting, order, same integers — when every
+    vertex of every feature is an integer pixel at whose centre `ToPlanar ∘ ToGeo` is accurate to
+    better than half a pixel (`PixelsOK`; nil / typed-nil features are allowed). -/
+theorem layer_roundtrip (F : MFn α)
+    (hfloor : ∀ (x : α) (n : ℤ), (n : α) ≤ x → x < (n : α) + 1 → F.floor x = (n : α))
+    (hofNat : ∀ n : Nat, F.ofNat n = (n : α))
+    (X Y Z extent : Nat) (feats : List (GVal α))
+    (hpix : ∀ g, GVal.val g ∈ feats → PixelsOK F X Y Z extent g) :
+    layerProjectToTile F X Y Z extent (layerProjectToWGS84 F X Y Z extent feats) = feats :=
+  layer_roundtrip' F hfloor hofNat X Y Z extent feats hpix
+
+/-- `Layers.ProjectToWGS84` then `Layers.ProjectToTile`: every layer with its own extent. -/
+theorem layers_roundtrip (F : MFn α)
+    (hfloor : ∀ (x : α) (n : ℤ), (n : α) ≤ x → x < (n : α) + 1 → F.floor x = (n : α))
+    (hofNat : ∀ n : Nat, F.ofNat n = (n : α))
+    (X Y Z : Nat) (ls : List (Nat × List (GVal α)))
+    (hpix : ∀ l ∈ ls, ∀ g, GVal.val g ∈ l.2 → PixelsOK F X Y Z l.1 g) :
+    layersProjectToTile F X Y Z (layersProjectToWGS84 F X Y Z ls) = ls :=
+  layers_roundtrip' F hfloor hofNat X Y Z ls hpix
 
 end tile
 
@@ -154,7 +326,9 @@ theorem merc_roundtrip_rev_partial (p : Pt α)
 
 /-- `ToPlanar (ToGeo p) = p` at every zoom, GIVEN the Gudermannian identity
     `log((1+sin(2·atan(eᵗ)−π/2))/(1−sin(2·atan(eᵗ)−π/2))) = 2t` as a hypothesis on the opaque functions,
-    and the 0.9999 clamp not active.  This is the `ε = 0` instance of the tile theorems' hypothesis. -/
+    and the 0.9999 clamp not active AT `p`.  Pointwise, like the tile theorems' hypothesis `CloseAt`:
+    it yields `CloseAt (toPlanar F z) (toGeo F z) 0 p` (`closeAt_of_eq`), and the two are chained in
+    `tile_roundtrip_pow2_of_planar_geo` and `newProjection_roundtrip_exact`. -/
 theorem planar_geo_roundtrip_partial (z : Nat) (p : Pt α)
     (hpi : F.pi ≠ 0) (hm : maxTiles F z ≠ 0) (htwo : F.twoPi = 2 * F.pi) (hd : F.d180pi = 180 / F.pi)
     (hgd : ∀ t, F.log ((1 + F.sin (2 * F.atan (F.exp t) - F.pi / 2)) / (1 - F.sin (2 * F.atan (F.exp t) - F.pi / 2))) = 2 * t)
@@ -187,11 +361,21 @@ def tile_roundtrip_full : Prop :=
 
 end mercator
 
-/-- Non-vacuity: the hypotheses of the tile theorems hold for `ratFloor` with `P = G = id`, `ε = 0`;
+/-- Non-vacuity: the hypotheses of the tile theorems hold for `ratFloor` with `P = G = id`, `ε = 0`
+    at every pixel centre (over ℝ with the real `toPlanar`, `toGeo`: OrbProofs/C15Real.lean);
     and a concrete stateful projection (a call counter added to x) over a nested collection. -/
 example : (∀ (x : Rat) (n : ℤ), (n : Rat) ≤ x → x < (n : Rat) + 1 → ratFloor x = (n : Rat)) ∧
-    (∀ u : Pt Rat, |((id (id u)) : Pt Rat).x - u.x| ≤ 0 ∧ |((id (id u)) : Pt Rat).y - u.y| ≤ 0) :=
-  ⟨ratFloor_spec, fun u => by simp⟩
+    (∀ c : Pt Rat, CloseAt id id 0 c) :=
+  ⟨ratFloor_spec, fun c => closeAt_of_eq id id c rfl⟩
+
+/-- the hypotheses of `tile_roundtrip_nonpow2_no_margin` are satisfiable with DIFFERENT errors on the
+    two axes, at one point only (`P` is exact everywhere else) -/
+example : ∃ (P G : Pt Rat → Pt Rat),
+    (P (G ⟨(5 : ℤ) / 1000 + 3, (7 : ℤ) / 1000 + 2⟩)).x = (5 : ℤ) / 1000 + 3 - 1 / 1000000 ∧
+    (P (G ⟨(5 : ℤ) / 1000 + 3, (7 : ℤ) / 1000 + 2⟩)).y = (7 : ℤ) / 1000 + 2 - 1 / 3000 ∧
+    P (G ⟨0, 0⟩) = ⟨0, 0⟩ :=
+  ⟨fun u => if u.x = (5 : ℤ) / 1000 + 3 then ⟨u.x - 1 / 1000000, u.y - 1 / 3000⟩ else u, id, by
+    refine ⟨?_, ?_, ?_⟩ <;> norm_num⟩
 
 example : (geometryM (fun (p : Pt Int) (k : Int) => (⟨p.x + k, p.y⟩, k + 1))
       (.collection [.lineString [⟨0, 0⟩, ⟨0, 1⟩], .bound ⟨5, 5⟩ ⟨0, 9⟩]) 0).2 = 4 := by decide
